@@ -239,6 +239,7 @@ func bufferParts(e ast.Expr) map[string]bool {
 func scanCloneExt(c *core.Ctx) []ob {
 	var out []ob
 	nArms, nLoops, nViews := 0, 0, 0
+	nDupViews := 0
 	c.FuncDecls(func(pk *packages.Package, file *ast.File, fd *ast.FuncDecl) {
 		rel := core.ShortPkg(pk.PkgPath)
 		if fd.Body == nil || fileIsTestSupport(c.Program, fd.Pos()) || strings.HasPrefix(rel, "examples") || strings.HasPrefix(rel, "utils/factorization") || strings.HasPrefix(rel, "utils/bignum") || strings.HasPrefix(rel, "utils/cosine") {
@@ -328,6 +329,53 @@ func scanCloneExt(c *core.Ctx) []ob {
 					loops = append(loops, x)
 				}
 			case *ast.BlockStmt:
+				// two names defined in the same block as the very same slice / element of a buffer: x := b[:n] ; y := b[:n]
+				type viewDef struct {
+					name string
+					rhs  ast.Expr
+				}
+				seenViews := map[string]viewDef{}
+				for _, st := range x.List {
+					as, ok := st.(*ast.AssignStmt)
+					if !ok || as.Tok != token.DEFINE || len(as.Lhs) != 1 || len(as.Rhs) != 1 {
+						continue
+					}
+					id, ok := as.Lhs[0].(*ast.Ident)
+					if !ok || id.Name == "_" {
+						continue
+					}
+					rhs := unparen(as.Rhs[0])
+					switch rhs.(type) {
+					case *ast.SliceExpr, *ast.IndexExpr:
+					default:
+						continue
+					}
+					if tv, ok := info.Types[rhs]; !ok || !storageType(tv.Type) {
+						continue
+					}
+					hasCall := false
+					ast.Inspect(rhs, func(n ast.Node) bool {
+						if _, ok := n.(*ast.CallExpr); ok {
+							hasCall = true
+						}
+						return true
+					})
+					if hasCall {
+						continue
+					}
+					es := exprString(rhs)
+					nDupViews++
+					if prev, dup := seenViews[es]; dup && prev.name != id.Name {
+						key := fmt.Sprintf("CLONE:%s#dupview(%s,%s)", fkey, prev.name, id.Name)
+						out = append(out, withProps(violOb("CLONE", key, c.Rel(as.Pos()), fmt.Sprintf("%s: %s and %s are both defined as %s: two names for the same storage, whatever is read or written through one is read or written through the other", fkey, prev.name, id.Name, es)), cloneProps(fkey)...))
+						continue
+					}
+					seenViews[es] = viewDef{id.Name, rhs}
+				}
+				if len(seenViews) >= 2 {
+					ordV++
+					out = append(out, withProps(okOb("CLONE", fmt.Sprintf("CLONE:%s#viewdefs%d", fkey, ordV), c.Rel(x.Pos()), fmt.Sprintf("%d views defined in the block, all over distinct storage expressions", len(seenViews)), true), cloneProps(fkey)...))
+				}
 				// adjacent single definitions of the same shape: a := V0 ; b := V1
 				for i := 0; i+1 < len(x.List); i++ {
 					a1, ok1 := x.List[i].(*ast.AssignStmt)
@@ -413,5 +461,6 @@ func scanCloneExt(c *core.Ctx) []ob {
 	c.Stats["clone_aligned_arms"] = nArms
 	c.Stats["clone_loops"] = nLoops
 	c.Stats["clone_views"] = nViews
+	c.Stats["clone_viewdefs"] = nDupViews
 	return out
 }
